@@ -120,7 +120,7 @@ func solveReports(reps []*FuncReport, dir string, timeout time.Duration, par int
 				defer wg.Done()
 				sem2 <- struct{}{}
 				defer func() { <-sem2 }()
-				r := race(rep.Results[i].File, 4*timeout, "")
+				r := raceWith(retrySolvers, rep.Results[i].File, 4*timeout)
 				r.Bytes = rep.Results[i].Bytes
 				if r.Status == "unsat" || r.Status == "sat" {
 					r.Solver += " (retry)"
